@@ -70,7 +70,9 @@ impl SortingInference<'_> {
             .ctx
             .anchor
             .column_decls
-            .values()
+            .iter()
+            .sorted_by_key(|(cid, _)| std::cmp::Reverse(cid.get()))
+            .map(|(_, col)| col)
             .filter_map(|col| {
                 if let ColumnDecl::Compute(compute) = col {
                     if let ExprKind::ColumnRef(referenced_id) = compute.expr.kind {
@@ -227,7 +229,8 @@ impl PqFold for SortingInference<'_> {
                             .anchor
                             .relation_instances
                             .iter_mut()
-                            .find(|(_riid, rel_inst)| rel_inst.table_ref.source == cte.tid)
+                            .filter(|(_riid, rel_inst)| rel_inst.table_ref.source == cte.tid)
+                            .min_by_key(|(riid, _)| **riid)
                             .unwrap();
 
                         cid_redirects_to_add
